@@ -80,8 +80,19 @@ def eitOf : Sexp → Option (Option Bool)
   | .atom "f" => some (some false)
   | _ => none
 
-def defOf (i : Nat) : Sexp → Option Def
-  | .list [p, .list as, q, e, s] => do
+/-- a `constants` entry: a value whose inferred type is in the alphabet -/
+def constOf : Sexp → Option (String × Val)
+  | .list [k, v] => do
+    let k' ← nameOf k
+    let v' ← valOf v
+    match v' with
+    | .undef => none
+    | _ => pure (k', v')
+  | _ => none
+
+def defOf5 (i : Nat) (p as q e s : Sexp) (cs : List Sexp) : Option Def :=
+  match as with
+  | .list as => do
     let parent ← optOf Sexp.nat? p
     match parent with
     | some j => if j ≥ i then none
@@ -91,7 +102,15 @@ def defOf (i : Nat) : Sexp → Option Def
     let equality ← eqOf q
     let includeType ← eitOf e
     let serialization ← serOf s
-    pure { parent := parent, attrs := attrs, equality := equality, includeType := includeType, serialization := serialization }
+    let constants ← cs.mapM constOf
+    if repeats (constants.map (·.1)) then none
+    pure { parent := parent, attrs := attrs, equality := equality, includeType := includeType,
+           serialization := serialization, constants := constants }
+  | _ => none
+
+def defOf (i : Nat) : Sexp → Option Def
+  | .list [p, as, q, e, s] => defOf5 i p as q e s []
+  | .list [p, as, q, e, s, .list (.atom "k" :: cs)] => defOf5 i p as q e s cs
   | _ => none
 
 def defsOf : Nat → List Sexp → Option (List Def)
@@ -154,6 +173,13 @@ def valStr : Val → String
 def hashStr (es : List (String × Val)) : String :=
   "(h" ++ String.join (es.map fun (k, v) => " (" ++ k ++ " " ++ valStr v ++ ")") ++ ")"
 
+def insertEntry (e : String × Val) : List (String × Val) → List (String × Val)
+  | [] => [e]
+  | x :: xs => if e.1 < x.1 then e :: x :: xs else x :: insertEntry e xs
+
+/-- a hash standing as a value is identified by its entries sorted by key (Hash equality ignores the order) -/
+def sortEntries (es : List (String × Val)) : List (String × Val) := es.foldr insertEntry []
+
 /-- definitions in order (schema assertion against the regenerated member table, then the definition proper); stops at
     the first rejected one -/
 def runDefs : List OType → List Def → List String × Option (List OType)
@@ -184,7 +210,7 @@ def runActs (env : List OType) : List (Option Obj) → List Action → List Stri
       match env[t]? with
       | none => "notype" :: runActs env (objs ++ [none]) as
       | some ty =>
-        match newNamed ty es (.hash (hashStr es)) with
+        match newNamed ty es (.hash (hashStr (sortEntries es))) with
         | .ok o => "obj" :: runActs env (objs ++ [some o]) as
         | .error c => c.toString :: runActs env (objs ++ [none]) as
     | .get o n =>
